@@ -11,17 +11,24 @@ import (
 	"github.com/thushan/olla/internal/util/pattern"
 )
 
+// patternCacheKey identifies one (item name, pattern) lookup. A joined string such as name+"::"+pattern is ambiguous
+// when either part contains the separator, which let one lookup answer for another.
+type patternCacheKey struct {
+	name    string
+	pattern string
+}
+
 // GlobFilter implements the Filter interface using glob pattern matching
 type GlobFilter struct {
 	// cache for compiled patterns to improve performance
-	patternCache map[string]bool
+	patternCache map[patternCacheKey]bool
 	cacheMu      sync.RWMutex
 }
 
 // NewGlobFilter creates a new GlobFilter instance
 func NewGlobFilter() ports.Filter {
 	return &GlobFilter{
-		patternCache: make(map[string]bool),
+		patternCache: make(map[patternCacheKey]bool),
 	}
 }
 
@@ -136,7 +143,7 @@ func (f *GlobFilter) Matches(config *domain.FilterConfig, itemName string) bool 
 // matchesPattern checks if a string matches a glob pattern with caching
 func (f *GlobFilter) matchesPattern(s, patternStr string) bool {
 	// caching for perf
-	cacheKey := fmt.Sprintf("%s::%s", s, patternStr)
+	cacheKey := patternCacheKey{name: s, pattern: patternStr}
 
 	f.cacheMu.RLock()
 	if result, exists := f.patternCache[cacheKey]; exists {
@@ -184,5 +191,5 @@ func (f *GlobFilter) createResultFromItems(items interface{}, rejected []interfa
 func (f *GlobFilter) ClearCache() {
 	f.cacheMu.Lock()
 	defer f.cacheMu.Unlock()
-	f.patternCache = make(map[string]bool)
+	f.patternCache = make(map[patternCacheKey]bool)
 }
